@@ -101,7 +101,13 @@ def propose (s : GenSt) (p : Prof) : Rng × List Op :=
   else if x < p.wAdd + p.wAddPresent + p.wBind then
     let (rng, v1) := pickId rng r s.cap 97 p.wildPct
     let (rng, v2) := pickId rng r s.cap 97 p.wildPct
-    let (rng, k) := rng.below 4
+    let (rng, k) := rng.below 5
+    -- an edge that already exists, bound once more under the same label (its target re-created first when it
+    -- was removed in the meantime and the edge is dangling)
+    if k = 4 ∧ r.edg v1 ≠ [] then
+      let (rng, e) := rng.pick (r.edg v1)
+      if e.2 ∈ r.ids then (rng, [.bind v1 e.2 e.1]) else (rng, [.add e.2, .bind v1 e.2 e.1])
+    else
     -- mostly an existing label of v1 (overwrite) or a fresh one
     let (rng, l) := if k = 0 ∧ r.edg v1 ≠ [] then
         let (rng, e) := rng.pick (r.edg v1); (rng, e.1)
@@ -464,7 +470,12 @@ def genMerge (rng : Rng) (broken : Bool) : Rng × Array String :=
   let (rng, kl) := rng.below 7
   let (rng, kr) := rng.below 7
   let (rng, extraL) := rng.below 6
-  let capL := kl + 1 + kr + 1 + extraL + 2
+  let capBig := kl + 1 + kr + 1 + extraL + 2
+  -- one time in three the left graph is nearly full: the merge fits only because paths of the two trees overlap
+  -- (decided below with the reference run; the larger capacity is used when it would not fit)
+  let (rng, tight) := rng.below 3
+  let (rng, slack) := rng.below (kr + 2)
+  let capL := if tight = 0 then kl + 1 + slack else capBig
   let (rng, extraR) := rng.below 6
   let capR := kr + 1 + extraR + 3
   let (rng, idsL) := pickIds rng capL (kl + 1)
@@ -495,6 +506,10 @@ def genMerge (rng : Rng) (broken : Bool) : Rng × Array String :=
     else s1
   let (rng, left) := s1.rng.pick (tl.map (·.id))
   let rightId := if broken ∧ mode = 3 ∧ tr.length > 1 then (tr.getD 1 ⟨0, none, none⟩).id else (tr.headD ⟨0, none, none⟩).id
+  let fits := match refMerge n capL capR s0.r s1.r left rightId with | some (_, _, v) => v | none => false
+  let s1 := if fits then s1 else { s1 with lines := s1.lines.map (fun l => if l = s!"new g0 {n} {capL}" then s!"new g0 {n} {capBig}" else l) }
+  let capL := if fits then capL else capBig
+  let s0 := { s0 with cap := capL }
   let lines := s1.lines ++ #["observe g0", "observe g1", s!"merge g0 g1 {left} {rightId}", "observe g0", "observe g1"]
   -- the epilogue: read every present vertex of g0 (state after the merge computed on the reference), then observe
   let s0' : GenSt := match refMerge n capL capR s0.r s1.r left rightId with
